@@ -104,3 +104,10 @@ P['C06'] = dict(
     assumptions=_pub_assume[:2],
     jobs=[dict(name='wire_order', tu='harness/w_order.cpp', entry='h_order', engine='B', clock=True, defs={'VK_PUBS': 3}, defs_quick={'VK_STEPS': 6}, defs_thorough={'VK_STEPS': 8}, reach=['two-ordered', 'acked', 'reconnected', 'serial-wraps'], samples=10),
           dict(name='comparator_B', tu='harness/w_order.cpp', entry='h_cmp', engine='B', clock=True, defs={'VK_PUBS': 3}, defs_quick={'VK_STEPS': 6}, defs_thorough={'VK_STEPS': 8}, reach=['window-order', 'transitive'], samples=10)])
+
+P['C09'] = dict(
+    level_text='On the real mqtt_client, async_disconnect (symbolic reason code, optional Reason String) is called in five client states (never connected with an attempt in progress; connected idle; write in progress; one PUBLISH in flight and one throttled by Receive Maximum 1; write in progress with two requests queued behind), then every order of write completion, write failure, timer expiry (virtual time, earliest deadline first) and progress of a pending connection attempt is explored, then time runs until no timer is armed. Monitors: the first packet written after the call (after the write already in progress) is the reference-decodable DISCONNECT with the given code and properties, alone in its gather-write, nothing follows it on that connection; the operation completes exactly once within 5000 ms of virtual time; all other operations and async_run complete; afterwards no write and no connection attempt.',
+    level_note='Bounds: 5 (quick) / 7 (thorough) steps after the call. "Within 5 seconds" is virtual time of the stub timers. Re-sending a terminal DISCONNECT after try_again is exercised through the write-failure event.',
+    assumptions=_pub_assume[:2] + ['timers fire in deadline order (virtual clock); network events take no time'],
+    jobs=[dict(name='disconnect', tu='harness/w_disc.cpp', entry='h_disc', engine='B', clock=True, defs_quick={'VK_STEPS': 5}, defs_thorough={'VK_STEPS': 7},
+               reach=['disconnect-on-wire', 'finished', 'write-failed', 'timer-fired', 'never-connected', 'throttled-traffic'], samples=10)])
